@@ -28,13 +28,15 @@ TOPO = {
     'cycle4+chord': (4, [(1, 2), (2, 3), (3, 4), (4, 1), (1, 3)], [], [1, 4]),
     'star4': (4, [(1, 2), (1, 3), (1, 4)], [], [2]),
     'two-pairs': (4, [(1, 2), (3, 4)], [], [1, 3]),
+    # two slack generators on ONE bus: an island with them has several enabled slacks
+    'path3+twin-slack': (3, [(1, 2), (2, 3)], [], [1, 1]),
     'five+jumper': (5, [(1, 2), (2, 3), (3, 4), (4, 5), (5, 1)], [(2, 4)], [1, 5]),
     # three multi-bus groups with interleaved bus numbers {1,4,7} {2,3} {5,6,8}, joined by two switchable ties
     'interleaved8': (8, [(1, 4), (4, 7), (2, 3), (5, 6), (6, 8), (7, 2), (3, 5)], [], [1, 5]),
 }
 # lines whose status stays 1 (only the others are symbolic) -- keeps the 8-bus case cheap in the quick tier
 FIXED_ON = {'interleaved8': [0, 1, 2, 3, 4]}
-QUICK = ['path3', 'tri+parallel', 'cycle4+chord', 'two-pairs', 'interleaved8']
+QUICK = ['path3', 'tri+parallel', 'cycle4+chord', 'two-pairs', 'interleaved8', 'path3+twin-slack']
 
 _SYS = {}
 
@@ -52,7 +54,7 @@ def get_sys(name, with_devices=False):
         if with_devices:
             lines = [dict(bus1=a, bus2=b, idx=k) for k, (a, b) in enumerate(lines)]      # Line idx 0, 1, ...
         ss = cases.build(list(range(1, n + 1)), lines=lines, jumpers=jumpers,
-                         slacks=[dict(bus=b, idx=f'SL{b}') for b in slacks], **kw)
+                         slacks=[dict(bus=b, idx=(f'SL{b}' if slacks.count(b) == 1 else f'SL{b}_{k}')) for k, b in enumerate(slacks)], **kw)
         _SYS[key] = ss
     return _SYS[key]
 
@@ -221,6 +223,52 @@ def job(spec):
     return H.run(f'ConnMan.init/act[{name}]', h_connman(name), timeout_ms=10000, max_paths=3000, region=region_of)
 
 
+def h_jumper(I):
+    """declared equations of the real Jumper (independent parser): closed -> the two buses share angle and voltage; open -> it carries
+    neither active nor reactive power"""
+    from vlib import modelsmt, eqsmt
+    m = modelsmt.system().models['Jumper']
+    vals = {n: I.real(n) for n in ('u', 'a1', 'a2', 'v1', 'v2', 'p', 'q')}
+    I.assume(OR(EQ(vals['u'], 0, tol=0.0), EQ(vals['u'], 1, tol=0.0)))
+
+    def ev(s):
+        if I.symbolic:
+            names = eqsmt.Names()
+            for k, v in vals.items():
+                names[k] = eqsmt.S(pysym.lift(v))
+            return pysym.SR(eqsmt.tos(eqsmt.ev_str(s, names, eqsmt.NS_DECL)).re)
+        return eqsmt.nev_str(s, {k: float(v) for k, v in vals.items()})
+    ep, eq_ = ev(m.p.e_str), ev(m.q.e_str)
+    at_rest = AND(EQ(ep, 0, tol=0.0), EQ(eq_, 0, tol=0.0))
+    closed, opened = EQ(vals['u'], 1, tol=0.0), EQ(vals['u'], 0, tol=0.0)
+    return [('a closed jumper ties the angles and the voltages of its two buses', IMPLIES(AND(at_rest, closed), AND(EQ(vals['a1'], vals['a2'], tol=0.0), EQ(vals['v1'], vals['v2'], tol=0.0)))),
+            ('an open jumper carries neither active nor reactive power', IMPLIES(AND(at_rest, opened), AND(EQ(vals['p'], 0, tol=0.0), EQ(vals['q'], 0, tol=0.0)))),
+            ('what it takes from one bus it gives to the other', m.a1.e_str.replace(' ', '') == 'p' and m.a2.e_str.replace(' ', '') == '-p' and m.v1.e_str.replace(' ', '') == 'q'
+             and m.v2.e_str.replace(' ', '') == '-q')]
+
+
+def h_island_without_machines(I):
+    """the connectivity check that follows a switching event, on a system whose largest island holds no synchronous machine"""
+    import andes.models.group as GR
+    from vlib import cases as CS
+    ss = CS.build([1, 2, 3], lines=[dict(bus1=1, bus2=2, idx='L1'), dict(bus1=2, bus2=3, idx='L2')], slacks=[dict(bus=1, idx='S')],
+                  pqs=[dict(bus=3, idx='D', p0=0.1, q0=0.0)], setup=False,
+                  extra=[('PV', dict(bus=3, idx='G3', p0=0.05)), ('GENCLS', dict(bus=3, gen='G3', idx='M3', M=5.0))])
+    ss.setup()
+    ss.PFlow.run()
+    ss.TDS.config.no_tqdm = 1
+    ss.TDS.init()          # the look-up needs the addresses of the machine states
+    raised = None
+    try:
+        ss.SynGen.store_idx_island([1, 2])          # the largest island after bus 3 was cut off: no machine on it
+    except (IndexError, KeyError) as e:
+        raised = repr(e)
+    ok_empty = raised is None and len(ss.SynGen.idx_island) == 0 and len(ss.SynGen.delta_addr) == 0
+    ss.SynGen.store_idx_island([3, 2])
+    return [('an island without machines yields an empty machine set (no exception)', ok_empty),
+            ('an island with a machine yields that machine', list(ss.SynGen.idx_island) == ['M3'])]
+
+
 def main():
     ck = core.Check(PID, 'other',
                     'Real System.connectivity (kvxopt replaced by a dictionary stub, differential-tested at every run) and real '
@@ -248,6 +296,8 @@ def main():
     jobs = [('conn', n) for n in names] + [('connman', n) for n in (names if thorough else ['path3', 'two-pairs'])] \
         + [('connseq', n) for n in (['path3', 'two-pairs', 'cycle4+chord'] if thorough else ['two-pairs'])]
     ck.merge(core.pmap(job, jobs))
+    ck.merge(H.run('Jumper equations', h_jumper, region=lambda v, c: c))
+    ck.merge(H.run('SynGen.store_idx_island', h_island_without_machines, region=lambda v, c: c))
     for n in names[:4]:
         ck.sample({'topology': n, 'buses': TOPO[n][0], 'lines': TOPO[n][1], 'jumpers': TOPO[n][2], 'slack_buses': TOPO[n][3]})
     ck.finish()
